@@ -210,16 +210,16 @@ func ratOf(v *sx) (*big.Rat, bool) {
 // ---------------------------------------------------------------- replay plan
 
 type replayCtx struct {
-	vc    *VC
-	sess  *session
-	pkg   *types.Package
-	code  []string // Go statements building the inputs
-	nvar  int
-	refs  map[string]string // "<typekey>:<ref>" -> variable
-	obs   []obsPoint
+	vc      *VC
+	sess    *session
+	pkg     *types.Package
+	code    []string // Go statements building the inputs
+	nvar    int
+	refs    map[string]string // "<typekey>:<ref>" -> variable
+	obs     []obsPoint
 	imports map[string]string
-	fail  string
-	budget int
+	fail    string
+	budget  int
 }
 
 type obsPoint struct {
